@@ -186,7 +186,7 @@ func runC19(c *ctx) error {
 	}
 	// a second shared pipeline with the shapes observers are tempted to tidy up: a step env that shadows a pipeline
 	// variable, plugins whose configs are present but empty, an empty non-nil matrix
-	litPipe, _ := pipeline.Parse(strings.NewReader("steps:\n  - command: a\n    env: {DEPLOY: shadow, OWN: x}\n    plugins:\n      - ecr#v2.7.0: {}\n      - docker#v5.0.0: []\n      - cache#v1: ~\n  - command: b\n    matrix: {}\n  - group: g\n    steps:\n      - command: c\n        plugins: [{x#v1: {}}]\n"))
+	litPipe, _ := pipeline.Parse(strings.NewReader("steps:\n  - command: a\n    env: {DEPLOY: shadow, OWN: x}\n    plugins:\n      - ecr#v2.7.0: {}\n      - docker#v5.0.0: []\n      - cache#v1: ~\n  - command: b\n    matrix: {}\n  - command: d\n    matrix:\n      setup: {os: [linux, linux, windows], arch: [arm]}\n  - group: g\n    steps:\n      - command: c\n        plugins: [{x#v1: {}}]\n"))
 	if litPipe == nil {
 		return fmt.Errorf("literal shared pipeline does not parse")
 	}
@@ -198,6 +198,9 @@ func runC19(c *ctx) error {
 				fmt.Fprintf(&b, "[%s=%#v]", pl.Source, pl.Config)
 			}
 			fmt.Fprintf(&b, "matrix:%v env:%v|", cs.Matrix != nil, cs.Env)
+			if cs.Matrix != nil {
+				fmt.Fprintf(&b, "setup:%q|", cs.Matrix.Setup)
+			}
 		}
 		return b.String()
 	}
